@@ -204,3 +204,22 @@ Example parses_example : jparse (lit "{""Type"":11,""Body"":[1.5,""a\""b"",null,
   = Some (JObj [(lit "Type", JNum (lit "11")); (lit "Body", JArr [JNum (lit "1.5"); JStr (lit "a""b"); JNull; JObj [(lit "Id", JNum (lit "85"))]])]).
 Proof. vm_compute. reflexivity. Qed.
 Example bare_words_refused : jparse (lit "{""Type"":12,""Body"":[a b]}") = None. Proof. vm_compute. reflexivity. Qed.
+
+(* a Variant built without an explicit type carries the built-in Type number of its value's class *)
+Lemma variant_type_nonzero v t : variant_type_of v = Some t -> (t <> 0)%Z.
+Proof. destruct v as [| k | [] | | | | | | | | | | | | | |]; try destruct k; cbn; intros H; try discriminate; injection H as <-; discriminate. Qed.
+Theorem variant_auto_parses E v t j : variant_type_of v = Some t -> dom10 v = true -> texts_ok v = true -> shape v = Some j ->
+  exists s, json_encode_variant_auto E (Some v) = Ok (Some s) /\ jparse s = Some (JObj [(lit "Type", JNum (decZ t)); (lit "Body", j)]).
+Proof.
+  intros Ht Hd Hx Hs. unfold json_encode_variant_auto. rewrite Ht. exact (variant_parses_as_json E v t j (variant_type_nonzero v t Ht) Hd Hx Hs).
+Qed.
+(* the inferred numbers are the built-in type numbers of the OPC UA specification (VariantType of the class's name) *)
+Theorem variant_type_table :
+  (forall b, variant_type_of (VBool b) = variant_number (lit "Boolean")) /\ (forall k z, variant_type_of (VInt k z) = variant_number (ikind_name k)) /\
+  (forall f, variant_type_of (VFloat false f) = variant_number (lit "Float")) /\ (forall f, variant_type_of (VFloat true f) = variant_number (lit "Double")) /\
+  (forall s, variant_type_of (VString s) = variant_number (lit "String")) /\ (forall d, variant_type_of (VDateTime d) = variant_number (lit "DateTime")) /\
+  (forall s, variant_type_of (VGuid s) = variant_number (lit "Guid")) /\ (forall b, variant_type_of (VByteString b) = variant_number (lit "ByteString")) /\
+  (forall r, variant_type_of (VXmlRaw r) = variant_number (lit "XmlElement")) /\ (forall n, variant_type_of (VNodeId n) = variant_number (lit "NodeId")) /\
+  (forall t l, variant_type_of (VLocText t l) = variant_number (lit "LocalizedText")) /\ (forall t b, variant_type_of (VExtObj t b) = variant_number (lit "ExtensionObject")) /\
+  (forall z s n, variant_type_of (VEnum z s n) = variant_number (lit "Int32")).
+Proof. repeat split; try reflexivity. intros [] z; reflexivity. Qed.
